@@ -34,7 +34,7 @@ using SF = shared_future<CV>;
 
 enum Got { G_NONE = 0, G_VALUE, G_TAG, G_CANCELED, G_OTHER };
 enum RKind { R_VALUE = 0, R_EXC, R_DROP };
-enum Ctor { K_PROMISE_PENDING = 0, K_PROMISE_INLINE, K_FUTURE_READY, K_FUTURE_PENDING, K_FUTURE_THROWS, K_FUTURE_CORO, K_LATE, K_COUNT };
+enum Ctor { K_PROMISE_PENDING = 0, K_PROMISE_INLINE, K_FUTURE_READY, K_FUTURE_PENDING, K_FUTURE_THROWS, K_FUTURE_CORO, K_LATE, K_LATE_SHARED, K_COUNT };
 enum Op { O_COPY = 0, O_DROP, O_AWAIT_KEEP, O_AWAIT_DROP, O_AWAIT_CORO, O_RESOLVE };
 enum Mode { M_NONE = 0, M_CB_KEEP, M_CB_DROP, M_CORO };
 
@@ -154,6 +154,14 @@ struct Ctx {
             plain[0].emplace([&]() -> future<CV> { return producer(this); });
             producer_frame = true;
             break;
+        case K_LATE_SHARED: // default-constructed, init_if_needed(), copied, and only then initialised through get_promise() of the copy
+            plain[0].emplace();
+            plain[0]->init_if_needed();
+            sf_copy(plain[1], *plain[0]);
+            VF_ASSERT(!plain[1]->ready(), "C17 a shared_future initialised by init_if_needed() is not ready");
+            prom.emplace(plain[1]->get_promise());
+            nplain_slots = 2; m.nplain = 2;
+            return;
         default: // K_LATE: default-constructed, initialised later through get_promise()
             plain[0].emplace();
             VF_ASSERT(!plain[0]->ready(), "C17 a default-constructed shared_future is not ready");
